@@ -69,6 +69,19 @@ def execute(case):
     for p in rec["placements"]:
         if p.placement_type in (Placement.PlacementType.PLACE_TASK, Placement.PlacementType.CANCEL_TASK):
             decisions.setdefault(p.task.unique_name, []).append(p)
+    # tasks that hold an earlier plan (SCHEDULED) and are decided again: a plan that met the deadline must not be replaced
+    # by one that misses it
+    if pname in ("ILP", "TetriSched_Gurobi", "TetriSched_CPLEX"):
+        for name, ps in decisions.items():
+            for p in ps:
+                t = p.task
+                cp = getattr(t, "current_placement", None)
+                if (t.state == TaskState.SCHEDULED and cp is not None and cp.execution_strategy is not None
+                        and p.placement_type == Placement.PlacementType.PLACE_TASK and p.is_placed() and p.execution_strategy is not None
+                        and us(cp.placement_time) + us(cp.execution_strategy.runtime) <= us(t.deadline)
+                        and us(p.placement_time) + us(p.execution_strategy.runtime) > us(t.deadline)):
+                    bad("committed_task_replanned_past_deadline", f"{name}: planned {us(cp.placement_time)}+{us(cp.execution_strategy.runtime)} <= deadline {us(t.deadline)}, "
+                                                                  f"re-planned to {us(p.placement_time)}+{us(p.execution_strategy.runtime)}")
     for name, t in offered.items():
         if t.state != TaskState.RELEASED and t.state != TaskState.VIRTUAL:
             continue
@@ -103,7 +116,9 @@ def execute(case):
                             continue
                         t = d["task"]
                         if getattr(t, "state", None) == TaskState.SCHEDULED:
-                            continue  # an earlier promise that must be kept: judged when it was made
+                            cp = getattr(t, "current_placement", None)
+                            if cp is None or cp.execution_strategy is None or us(cp.placement_time) + us(cp.execution_strategy.runtime) > us(t.deadline):
+                                continue  # an earlier promise that already missed: judged when it was made
                         end = d["start"] + us(d["strategy"].runtime)
                         if end > us(t.deadline):
                             bad("feasible_point_misses_deadline", f"{name}: feasible point #{n_points} starts {d['start']} with runtime {us(d['strategy'].runtime)}, deadline {us(t.deadline)}")
